@@ -273,6 +273,16 @@ def forceMet : List Char → List Char
 def cdsGeneratedTranslation (tr : Nat → List Char) (recordTable : Nat) (qual : Option Nat) : List Char :=
   forceMet (aaTranslation (tr (cdsTable recordTable qual)))
 
+/-! ### `Feature.start` / `Feature.end`: the gene's ends in transcription order -/
+
+/-- `Feature.start`: `parts[0].start` unless the strand is −1, then `parts[-1].start` -/
+def featureStart (l : Loc) : Int :=
+  if isRev l then (l.parts.getLast?.map (·.lo)).getD 0 else (l.parts.head?.map (·.lo)).getD 0
+
+/-- `Feature.end`: `parts[-1].end` unless the strand is −1, then `parts[0].end` -/
+def featureEnd (l : Loc) : Int :=
+  if isRev l then (l.parts.head?.map (·.hi)).getD 0 else (l.parts.getLast?.map (·.hi)).getD 0
+
 /-! ### features read back through `Record.from_biopython` (antiSMASH output re-read, --reuse-results) -/
 
 /-- `check(location)` inside `location_bridges_origin` for a reverse-strand location is `orderInvalid true`; the
